@@ -20,6 +20,7 @@
 -/
 import RotoV.Lemmas.ListConc
 import RotoV.Lemmas.ListTrace
+import RotoV.Lemmas.ListConcIter
 import RotoV.Generated.C16Facts
 
 namespace RotoV.C16
@@ -332,7 +333,7 @@ theorem no_deadlock (lists : List (List Nat)) (progs : List (List Op)) (sched : 
 
 /-- the final results of a schedule, per thread -/
 def resultsAfter (F : Facts) (lists : List (List Nat)) (progs : List (List Op)) (sched : List Nat) :
-    Option (List (List Res)) :=
+    Option (List (List ListConc.Res)) :=
   (run F (init lists progs) sched).map fun s => resultsOf s progs.length
 
 /-- `List::get` as written on the pinned tree (lookup under the lock, clone
@@ -365,6 +366,97 @@ theorem concat_as_written_not_linearizable :
 theorem eq_as_written_opposite_order_deadlock :
     (run ⟨true, true, false, true⟩ (init [[1], [2]] [[.eq 0 1], [.eq 1 0]]) [0, 1]).map
       (deadlocked ⟨true, true, false, true⟩ 2) = some true := by decide
+
+/-! ### live iterators: an iteration is a sequence of separate critical sections
+
+  `IntoIter` (the Rust-side iterator of a list) keeps a handle and an index;
+  a thread that drives one is an ADAPTIVE program (Model/ListConcIter): the
+  operation it issues next depends on the results it got. Every theorem above
+  is for all static programs, hence for every run that `Follows` an adaptive
+  one; the theorems below are about what the iterator adds. -/
+
+/-- what `into_iter` initialises and `IntoIter::next` decides, regenerated from
+    the source (translator target `listiter`): the iterator starts at index 0
+    and keeps no snapshot of the length; `next` never answers `None` without
+    asking the list; it passes its own index to `List::get`; the index moves
+    by one after an element. (Fails to check for an iterator that stops at the
+    length the list had when it was made, or reads another index.) -/
+theorem iter_next_as_modelled :
+    RotoV.Gen.ListIter.startIdx = 0 ∧ RotoV.Gen.ListIter.snapshotFields = 0 ∧
+    (∀ w, RotoV.Gen.ListIter.nextStopsEarly w = false) ∧
+    (∀ w, RotoV.Gen.ListIter.nextIndex w = w.idx) ∧
+    (∀ w, RotoV.Gen.ListIter.nextIdxAfter w = w.idx + 1) :=
+  ⟨rfl, rfl, fun _ => rfl, fun _ => rfl, fun _ => rfl⟩
+
+/-- **Each `next` is one `List::get` at the cursor** — one lookup-and-clone
+    under one guard (`get_skeletons_from_source`), nothing of the list is held
+    between two calls — and the cursor moves iff an element came back: after
+    `None` the same index is asked again (an iterator that ended picks up
+    elements pushed later). -/
+theorem iterator_next_is_get_at_cursor (l c : Nat) (r : ListConc.Res) :
+    iresolve (some (l, c)) .iterNext = some (.get l c) ∧
+    iadvance (some (l, c)) .iterNext r =
+      some (l, match r with | .opt (some _) => c + 1 | _ => c) := by
+  refine ⟨rfl, ?_⟩
+  cases r with
+  | opt o => cases o <;> rfl
+  | _ => rfl
+
+/-- **Later operations do not change the run so far** (any facts, any number
+    of threads): appending operations to the threads' programs leaves every
+    schedule of the shorter programs a schedule, with the same cells, the same
+    log, events and spans, and the same results — only the programs still to
+    run are longer. This is why a thread that *decides* its next operation when
+    the previous one returned (an iterator: `Follows`) runs exactly like the
+    static program that has all of them from the start. -/
+theorem later_operations_do_not_change_the_run_so_far (F : Facts) (lists : List (List Nat))
+    (progs : List (List Op)) (more : Nat → List Op) (sched : List Nat) (s' : State)
+    (hrun : run F (init lists progs) sched = some s') :
+    ∃ s2, run F (init lists (extendProgs progs more)) sched = some s2 ∧
+      s2.cells = s'.cells ∧ s2.hist = s'.hist ∧ s2.trace = s'.trace ∧ s2.spans = s'.spans ∧
+      ∀ t, (s2.threads t).results = (s'.threads t).results ∧
+        (s2.threads t).prog = (s'.threads t).prog ++ (if t < progs.length then more t else []) := by
+  obtain ⟨s2, h2, hc, hh, ht, hs, hth⟩ := run_ext sched (init_ext lists progs more) hrun
+  exact ⟨s2, h2, hc, hh, ht, hs, fun t => by rw [hth t]; exact ⟨rfl, rfl⟩⟩
+
+/-- **An iterator under concurrent pushes yields a prefix of the list.** For
+    every number of threads, all programs and every schedule: if thread `t`
+    made an iterator over list `l` and called `next` up to `n` times (its
+    static program `Follows` that adaptive program under the results the run
+    produced) and no thread swaps elements of `l` — the other threads may push
+    to it, read it, concat it, compare it, clone and drop handles, between any
+    two calls of `next` and while one waits for the lock — then the items the
+    iterator yielded are, in order, the first elements of `l` as it is in the
+    end: nothing skipped, nothing twice, nothing that was never in the list,
+    although the iteration as a whole is not atomic (see
+    `iterator_is_not_a_snapshot` for what a swap does). -/
+theorem iterator_yields_prefix_under_pushes (lists : List (List Nat)) (progs : List (List Op))
+    (sched : List Nat) (s' : State)
+    (hrun : run RotoV.Gen.C16.facts (init lists progs) sched = some s')
+    (t l n : Nat)
+    (hfol : Follows (.iterNew l :: List.replicate n .iterNext) (progs.getD t []) (s'.threads t).results)
+    (hns : ∀ u, ∀ op ∈ progs.getD u [], ∀ i j, op ≠ .swap l i j) :
+    yielded (s'.threads t).results <+: abs s' l := by
+  obtain ⟨hsim, hres, hord⟩ := atomic_ops_linearizable lists progs sched s' hrun
+  refine iter_prefix_of_linearizable s'.hist _ _ _ _ (s'.threads t).prog t l n
+    iter_next_as_modelled.1 (fun c => iter_next_as_modelled.2.2.2.1 _)
+    (fun c => iter_next_as_modelled.2.2.2.2 _) hsim (hres t) (hord t) hfol ?_
+  intro d hd i j
+  apply hns d.tid
+  rw [← hord d.tid]
+  exact List.mem_append_left _ (List.mem_map.2 ⟨d, List.mem_filter.2 ⟨hd, by simp⟩, rfl⟩)
+
+/-- **An iteration is not a snapshot**: with a swap between two calls of
+    `next` (each of them atomic, the run linearizable) the iterator over
+    `[1, 2]` yields `1` twice while the list ends as `[2, 1]` — the no-swap
+    premise of `iterator_yields_prefix_under_pushes` is needed, and the
+    property (per-operation linearizability) does not promise more. -/
+theorem iterator_is_not_a_snapshot :
+    (run RotoV.Gen.C16.facts (init [[1, 2]] [[.clone 0, .get 0 0, .get 0 1], [.swap 0 0 1]])
+        [0, 0, 0, 1, 0, 0]).map
+      (fun s => (yielded (s.threads 0).results, abs s 0,
+        decide (Follows [.iterNew 0, .iterNext, .iterNext] [.clone 0, .get 0 0, .get 0 1] (s.threads 0).results)))
+      = some ([1, 1], [2, 1], true) := by decide
 
 /-! ### non-vacuity -/
 
@@ -429,5 +521,25 @@ example : (run RotoV.Gen.C16.facts (init [[1], [2]] [[.eq 0 1], [.len 1]]) [0, 1
 /-- `completion_order_respects_real_time` on a concrete split -/
 example : (run RotoV.Gen.C16.facts (init [[1]] [[.len 0], [.push 0 2]]) ([0] ++ [1])).isSome = true := by
   decide
+
+/-- `iterator_yields_prefix_under_pushes` has runs to talk about: an iterator over
+    `[1, 2, 3, 4]` against a relocating push between its first and second `next`;
+    the driver's adaptive execution issues exactly the programs of that run -/
+example : (run RotoV.Gen.C16.facts (init [[1, 2, 3, 4]] [[.clone 0, .get 0 0, .get 0 1], [.push 0 9]])
+      [0, 0, 0, 1, 0, 0]).map
+    (fun s => (yielded (s.threads 0).results, abs s 0,
+      decide (Follows [.iterNew 0, .iterNext, .iterNext] [.clone 0, .get 0 0, .get 0 1] (s.threads 0).results)))
+    = some ([1, 2], [1, 2, 3, 4, 9], true) := by decide
+example : idrive RotoV.Gen.C16.facts [[1, 2, 3, 4]] [[.iterNew 0, .iterNext, .iterNext], [.base (.push 0 9)]]
+      [0, 0, 0, 1, 0, 0] = some [[.clone 0, .get 0 0, .get 0 1], [.push 0 9]] := by decide
+/-- an iterator that reached the end asks the same index again: it resumes after a push -/
+example : idrive RotoV.Gen.C16.facts [[1]] [[.iterNew 0, .iterNext, .iterNext, .iterNext], [.base (.push 0 9)]]
+      [0, 0, 0, 0, 1, 0, 0] = some [[.clone 0, .get 0 0, .get 0 1, .get 0 1], [.push 0 9]] := by decide
+
+/-- `later_operations_do_not_change_the_run_so_far` on a concrete run: the iterator's
+    second `next` appended after its first has returned -/
+example : (run RotoV.Gen.C16.facts (init [[1, 2]] (extendProgs [[.clone 0, .get 0 0], [.push 0 9]]
+      (fun t => if t = 0 then [.get 0 1] else []))) [0, 0, 0, 1]).map (fun s => (s.threads 0).prog)
+    = some [.get 0 1] := by decide
 
 end RotoV.C16
